@@ -13,11 +13,17 @@ var simAnchors = []string{"anchor-unequal-heights", "anchor-null-tie", "anchor-d
 
 // simCases: anchor histories for every configuration first (seed independent), then
 // generated histories whose parameters are a function of (seed, index) only.
-func simCases(seed uint64, n int, salt uint64) []core.Case {
+func simCases(seed uint64, n int, salt uint64, encrypted bool) []core.Case {
 	var cs []core.Case
 	for _, cfg := range []string{"plain", "indexed", "branchable"} {
 		for _, a := range simAnchors {
 			cs = append(cs, core.MkCase("sim/"+a+"/"+cfg, 1, sim.Params{Config: cfg, Store: "badger", Replicas: 3, Recipe: a}))
+		}
+	}
+	if encrypted {
+		// single-writer histories over document-level encrypted documents (C04 only)
+		for _, a := range []string{"anchor-single-writer"} {
+			cs = append(cs, core.MkCase("sim/"+a+"/encrypted", 1, sim.Params{Config: "encrypted", Store: "badger", Replicas: 1, Recipe: a}))
 		}
 	}
 	rng := rand.New(rand.NewPCG(seed, salt))
@@ -31,6 +37,10 @@ func simCases(seed uint64, n int, salt uint64) []core.Case {
 			p.Recipe = "genesis-first"
 		}
 		cs = append(cs, core.MkCase("sim/"+p.Recipe+"/"+p.Config, rng.Uint64(), p))
+		if encrypted && i%8 == 0 {
+			e := sim.Params{Config: "encrypted", Store: "badger", Replicas: 1, Steps: 8 + rng.IntN(10), Recipe: "genesis-first"}
+			cs = append(cs, core.MkCase("sim/"+e.Recipe+"/"+e.Config, rng.Uint64(), e))
+		}
 	}
 	return cs
 }
@@ -51,7 +61,7 @@ func init() {
 		Rule: "3-4 anchor histories per configuration + generated replica histories (2-4 real nodes, local create/update/delete of every field kind, " +
 			"deliveries of heads, old ancestors and duplicates by block-closure copy + VerifMerge, shuffled anti-entropy twice). " +
 			"non-trivial = a merge arrived at a frontier with >=2 heads or at equal height with a different commit; distinct by (configuration, hash-free DAG shape).",
-		Cases: func(seed uint64, tier string) []core.Case { return simCases(seed, tierN(tier, 800, 20000), 101) },
+		Cases: func(seed uint64, tier string) []core.Case { return simCases(seed, tierN(tier, 800, 20000), 101, false) },
 		Run: func(ctx context.Context, c core.Case, r *core.Rec) {
 			sim.Run(ctx, c, r, sim.Oracles{Converge: true})
 		},
@@ -63,7 +73,7 @@ func init() {
 		Rule: "same simulator biased to counters and re-delivery; after EVERY step the touched document on the touched replica is compared with fold(M_r) " +
 			"(counters = exact sum of merged increments, registers in the set of causally maximal merged writes, deleted iff a merged delete, never resurrected). " +
 			"non-trivial/distinct as C01.",
-		Cases: func(seed uint64, tier string) []core.Case { return simCases(seed, tierN(tier, 800, 20000), 202) },
+		Cases: func(seed uint64, tier string) []core.Case { return simCases(seed, tierN(tier, 800, 20000), 202, false) },
 		Run: func(ctx context.Context, c core.Case, r *core.Rec) {
 			sim.Run(ctx, c, r, sim.Oracles{Fold: true})
 		},
@@ -76,7 +86,7 @@ func init() {
 			"height = 1 + max parent height (composite and per-field DAGs); stored heads (raw /db/heads and latestCommits) = maximal merged commits with stored height = block height; " +
 			"genesis blocks byte-identical across nodes. non-trivial = audit taken with a multi-head frontier; distinct by DAG shape.",
 		Cases: func(seed uint64, tier string) []core.Case {
-			cs := simCases(seed, tierN(tier, 600, 12000), 404)
+			cs := simCases(seed, tierN(tier, 600, 12000), 404, true)
 			return append(genesisCases(seed, tierN(tier, 40, 800)), cs...)
 		},
 		Run: func(ctx context.Context, c core.Case, r *core.Rec) {
@@ -86,7 +96,7 @@ func init() {
 			}
 			sim.Run(ctx, c, r, sim.Oracles{Audit: true})
 		},
-		Floors:      append([]string{"audits", "audits_with_multi_head_frontier", "genesis_pairs", "blocks_checked", "raw_head_entries"}, simFloors...),
+		Floors:      append([]string{"audits", "audits_with_multi_head_frontier", "genesis_pairs", "blocks_checked", "raw_head_entries", "encrypted_documents_created"}, simFloors...),
 		Assumptions: []string{"merged set M_r = commits whose creation or merge returned success, ancestor-closed (not 'reachable from heads')"},
 	})
 }
